@@ -1,6 +1,6 @@
 /-
-A small verified-later normaliser for kernels that are polynomials in `L = log(1-z)` times an
-integer power of `1/(1-z)`, with coefficients polynomial in `args[0]` (nf, or `log(Q²/m²)`).
+A small normaliser for kernels that are polynomials in `L = log(1-z)` times an integer power of
+`1/(1-z)`, with coefficients polynomial in `args[0]` (nf, or `log(Q²/m²)`), `zeta2`, `zeta3`.
 
 Executable part only (Mathlib-free); soundness is proved in `Lemmas/NormSound.lean`.
 -/
@@ -16,11 +16,10 @@ class Coeff (C : Type) where
   mul : C → C → C
   neg : C → C
   ofRat : Rat → C
-  /-- `a · args[0]` — the coefficient ring contains the variable `args[0]` -/
-  argVar : C
-  /-- division by a constant: `some` only when the divisor is a non-zero constant -/
+  /-- the `i`-th polynomial variable, when this coefficient type has one -/
+  var : Nat → Option C
+  /-- the rational value when the element is a constant -/
   constVal : C → Option Rat
-  smulRat : Rat → C → C
 
 /-- dense univariate polynomial, lowest degree first -/
 abbrev Poly (C : Type) := List C
@@ -47,7 +46,6 @@ def pow (p : Poly C) : Nat → Poly C
 
 end Poly
 
-/-- polynomials in `args[0]` with rational coefficients: the coefficient ring -/
 instance : Coeff Rat where
   zero := 0
   one := 1
@@ -55,33 +53,37 @@ instance : Coeff Rat where
   mul := (· * ·)
   neg := (- ·)
   ofRat := id
-  argVar := 0          -- not available at this level
+  var _ := none
   constVal := some
-  smulRat := (· * ·)
 
-/-- `Poly Rat` as coefficients (polynomials in `args[0]`) -/
-instance : Coeff (Poly Rat) where
+/-- polynomials over a coefficient type are again coefficients: variable 0 is the new
+indeterminate, variable `i+1` is variable `i` of the coefficients -/
+instance {C : Type} [Coeff C] : Coeff (Poly C) where
   zero := []
-  one := [1]
+  one := [Coeff.one]
   add := Poly.add
   mul := Poly.mul
   neg := Poly.neg
-  ofRat q := [q]
-  argVar := [0, 1]
+  ofRat q := [Coeff.ofRat q]
+  var i := match i with
+    | 0 => some [Coeff.zero, Coeff.one]
+    | i + 1 => (Coeff.var i : Option C).map fun v => [v]
   constVal p := match p with
     | [] => some 0
-    | [c] => some c
-    | c :: rest => if rest.all (· == 0) then some c else none
-  smulRat q p := p.map (q * ·)
+    | [c] => Coeff.constVal c
+    | _ => none
 
-/-- coefficients: polynomials in `args[0]`; main variable: `L = log(1-z)` -/
-abbrev PolyLA := Poly (Poly Rat)
+/-- coefficient ring: `ℚ[args0][zeta2][zeta3]` as nested univariate polynomials
+(variable 0 = `args[0]`, 1 = `zeta2`, 2 = `zeta3`) -/
+abbrev CoefT := Poly (Poly (Poly Rat))
+
+/-- polynomials in `L = log(1-z)` over `CoefT` -/
+abbrev PolyLA := Poly CoefT
 
 /-- value `p(L) · (1-z)^(-k)` -/
 structure LD where
   p : PolyLA
   k : Int
-  deriving Repr
 
 def constRat (name : String) : Option Rat :=
   match name with
@@ -90,29 +92,36 @@ def constRat (name : String) : Option Rat :=
   | "TR" => some (1/2)
   | _ => none
 
+/-- variable index of a symbolic constant -/
+def constVar (name : String) : Option Nat :=
+  match name with
+  | "zeta2" => some 1
+  | "zeta3" => some 2
+  | _ => none
+
 /-- is this `1 - z` ? -/
 def isOneMinusZ : KExpr → Bool
   | .sub (.lit q) .z => q == 1
   | _ => false
 
-/-- constant polynomial value of an `LD`, if it is one (`k = 0`, degree 0 in `L`, constant in `args[0]`) -/
-def LD.const? (a : LD) : Option Rat :=
-  if a.k ≠ 0 then none else
-  match a.p with
-  | [] => some 0
-  | [c] => Coeff.constVal c
-  | _ => none
+def constPoly (q : Rat) : PolyLA := [Coeff.ofRat q]
 
 /-- normalise; `none` = outside the fragment -/
 def normLD : KExpr → Option LD
-  | .lit q => some ⟨[[q]], 0⟩
-  | .const n => (constRat n).map fun q => ⟨[[q]], 0⟩
-  | .arg 0 => some ⟨[[0, 1]], 0⟩
+  | .lit q => some ⟨constPoly q, 0⟩
+  | .const n =>
+    match constRat n with
+    | some q => some ⟨constPoly q, 0⟩
+    | none =>
+      match constVar n with
+      | some i => (Coeff.var i : Option CoefT).map fun v => ⟨[v], 0⟩
+      | none => none
+  | .arg i => if i = 0 then (Coeff.var 0 : Option CoefT).map fun v => ⟨[v], 0⟩ else none
   | .add a b => do
       let x ← normLD a; let y ← normLD b
       if x.k = y.k then pure ⟨Poly.add x.p y.p, x.k⟩ else none
   | .sub a b =>
-      if isOneMinusZ (.sub a b) then some ⟨[[1]], -1⟩ else do
+      if isOneMinusZ (.sub a b) then some ⟨constPoly 1, -1⟩ else do
       let x ← normLD a; let y ← normLD b
       if x.k = y.k then pure ⟨Poly.add x.p (Poly.neg y.p), x.k⟩ else none
   | .mul a b => do
@@ -122,40 +131,44 @@ def normLD : KExpr → Option LD
   | .pow a n => do let x ← normLD a; pure ⟨Poly.pow x.p n, x.k * n⟩
   | .div a b => do
       let x ← normLD a; let y ← normLD b
-      -- divisor must be `c · (1-z)^(-m)` with a non-zero constant `c`
-      match (⟨y.p, 0⟩ : LD).const? with
-      | some c => if c = 0 then none else pure ⟨Poly.smul ([1 / c] : Poly Rat) x.p, x.k - y.k⟩
+      -- divisor must be `c · (1-z)^(-m)` with a non-zero rational constant `c`
+      match (Coeff.constVal y.p : Option Rat) with
+      | some c => if c = 0 then none else pure ⟨Poly.smul (Coeff.ofRat (1 / c)) x.p, x.k - y.k⟩
       | none => none
-  | .log a => if isOneMinusZ a then some ⟨[[], [1]], 0⟩ else none
+  | .log a => if isOneMinusZ a then some ⟨[Coeff.zero, Coeff.one], 0⟩ else none
   | _ => none
 
-/-- the coefficient obligation between a singular part `a(L)/(1-z)` and a local part `b(L)`:
-`(k+1)·b_{k+1} = a_k` for every `k` (as polynomials in `args[0]`), within relative tolerance `τ` on
-every rational coefficient -/
+/-! ## The coefficient obligation between a singular part `a(L)/(1-z)` and a local part `b(L)` -/
+
+/-- flatten a nested polynomial to its rational coefficients with their multi-degrees dropped:
+comparison is coefficient by coefficient in the same positions -/
 def ratClose (τ : Rat) (x y : Rat) : Bool := decide ((x - y).abs ≤ τ * y.abs)
 
-def polyRatClose (τ : Rat) : Poly Rat → Poly Rat → Bool
-  | [], [] => true
-  | [], y :: ys => ratClose τ 0 y && polyRatClose τ [] ys
-  | x :: xs, [] => ratClose τ x 0 && polyRatClose τ xs []
-  | x :: xs, y :: ys => ratClose τ x y && polyRatClose τ xs ys
+/-- generic coefficient-wise closeness, zero-padding the shorter list -/
+def listClose {α : Type} (close : α → α → Bool) (zero : α) : List α → List α → Bool
+  | [], ys => ys.all fun y => close zero y
+  | x :: xs, [] => close x zero && listClose close zero xs []
+  | x :: xs, y :: ys => close x y && listClose close zero xs ys
 
-/-- `d/dL` of the local polynomial -/
+def close1 (τ : Rat) : Poly Rat → Poly Rat → Bool := listClose (ratClose τ) 0
+def close2 (τ : Rat) : Poly (Poly Rat) → Poly (Poly Rat) → Bool := listClose (close1 τ) []
+def close3 (τ : Rat) : CoefT → CoefT → Bool := listClose (close2 τ) []
+def closeL (τ : Rat) : PolyLA → PolyLA → Bool := listClose (close3 τ) []
+
+/-- `d/dL` of a polynomial in `L` -/
 def derivL : PolyLA → Nat → PolyLA
   | [], _ => []
   | _ :: rest, 0 => derivL rest 1
-  | c :: rest, k => Coeff.smulRat (k : Rat) c :: derivL rest (k + 1)
+  | c :: rest, k + 1 => Coeff.mul (Coeff.ofRat ((k + 1 : Nat) : Rat)) c :: derivL rest (k + 2)
 
-def coeffsClose (τ : Rat) : PolyLA → PolyLA → Bool
-  | [], [] => true
-  | [], y :: ys => polyRatClose τ [] y && coeffsClose τ [] ys
-  | x :: xs, [] => polyRatClose τ x [] && coeffsClose τ xs []
-  | x :: xs, y :: ys => polyRatClose τ x y && coeffsClose τ xs ys
-
-/-- the C03 obligation for a `(sing, loc)` pair inside the fragment -/
+/-- the C03 obligation for a `(sing, loc)` pair inside the fragment: `sing = s(L)/(1-z)`,
+`loc = l(L)`, and `dl/dL = s` coefficient by coefficient (relative tolerance `τ`) -/
 def distributionOK (τ : Rat) (sing loc : KExpr) : Bool :=
   match normLD sing, normLD loc with
-  | some s, some l => s.k == 1 && l.k == 0 && coeffsClose τ (derivL l.p 0) s.p
+  | some s, some l => s.k == 1 && l.k == 0 && closeL τ (derivL l.p 0) s.p
   | _, _ => false
+
+/-- a local part without singular part must not depend on `z` at all -/
+def localIsConstant (loc : KExpr) : Bool := !loc.usesZ
 
 end Yadism
